@@ -60,6 +60,7 @@ def run_sessions(c, codecs, pids, n_random, n_exh, extra_reqs=(), big=False):
         c.violation("session crashed (%s): %s" % (reqs[kx].desc(), ans[kx][:160]), "session-crash",
                     {"stream": "dec", "request": lines[kx], "stderr": se})
     rs_req, rs_idx, it_req, it_idx, ml_req, ml_idx = [], [], [], [], [], []
+    prem_seen = set()
     nontrivial = set()
     for i, (q, al) in enumerate(zip(reqs, ans)):
         a = ldpc.Ans(al)
@@ -86,6 +87,10 @@ def run_sessions(c, codecs, pids, n_random, n_exh, extra_reqs=(), big=False):
             ml_req.append("J %d %d %d %s %s %s %d %s %s" % (q.k, q.r, q.L, "1" if a.LN == "1" else "0", a.Hs, a.Ys, q.api, a.PM or "-",
                                                             " ".join(map(str, q.esis if q.api == 0 else sorted(set(q.esis))))))
             ml_idx.append(i)
+            bad = ldpc.matrix_premises(a.H, q.r, q.k + q.r)
+            if bad and (q.codec, q.k, q.r, q.p1, q.p2) not in prem_seen:
+                c.proof_failed.append({"premise": "hypothesis of the IT/ML theorems fails on the matrix of this session: " + bad, "request": lines[i][:300]})
+            prem_seen.add((q.codec, q.k, q.r, q.p1, q.p2))
     # ---- extracted models
     try:
         mexe = vlib.ocaml_model()
